@@ -28,6 +28,7 @@ func TestSubset(t *testing.T) {
 		{dir: "pos", file: "pos.go", name: "Must", lean: "must"},
 		{dir: "pos", file: "pos.go", name: "View", lean: "view", views: map[string]string{"b": "Count n pt.X pt.Y"}},
 		{dir: "pos", file: "pos.go", name: "Table", lean: "table", table: true},
+		{dir: "pos", file: "pos.go", name: "Local", lean: "local"},
 	}
 	withWhitelist(t, []string{""}, wl, func(out map[string]string, errs []error) {
 		for _, e := range errs {
@@ -49,6 +50,8 @@ func TestSubset(t *testing.T) {
 			"def view (b_Count : Int) (b_n : Int) (b_pt_X : Int) (b_pt_Y : Int) (d : Int) : Bool :=\n  let v : Int := b_Count", // pt.Y is declared but not read: still a parameter
 			"def table_neg (n : Int) (i : Int) : Int :=\n  (wrap8 (-i))",
 			"def table_shift (n : Int) (i : Int) : Int :=\n  (wrap8 ((table_neg n i) + (wrap8 n)))",
+			"def local_abs (b : Int) (v : Int) : Int :=\n  if (decide (v < (0 : Int))) then\n    (wrap8 (-v))\n  else\n    (wrap8 ((wrap8 (v + b)) - b))",
+			"def local (a : Int) (b : Int) : Int :=\n  (wrap8 ((local_abs b a) + (local_abs b b)))",
 			"def table (n : Int) (k : Fin 2) (i : Int) : Int :=\n  match k with\n  | 0 => table_neg n i\n  | 1 => table_shift n i",
 		} {
 			if !strings.Contains(src, want) {
@@ -66,7 +69,7 @@ func TestRejected(t *testing.T) {
 		{"Shadow", "two variables named a"},
 		{"DivVar", "division by something that is not a non-zero constant"},
 		{"ShiftSigned", "conversion Int -> Nat"},
-		{"Closure", "expression *ast.FuncLit"},
+		{"Closure", "captured by a closure and reassigned"},
 		{"Break", "branch statement in switch"},
 		{"CallsPanicky", "may panic"},
 		{"Slice", "parameter type []int"},
